@@ -220,3 +220,26 @@ def repo_tests_validate(res, node='tests'):
                       {'test': test, 'matched_events': at, 'constants': r['constants'],
                        'events': [[e['op'], e['a1'], e['a2'], e['ret']] for e in r['events']],
                        'next_event': r['events'][at] if isinstance(at, int) and at < len(r['events']) else None})
+
+
+def simulate_big(res, num_per_worker=100, depth=40, salt=0):
+    """Model-level exploration beyond the exhaustive instances (thorough tier): 3 entities, 5 component instances over
+    the diamond hierarchy, 3 processors (one a subclass of another), a queue bound of 4 and EVERY action family of
+    World.tla enabled at once (faults, in-frame killers / schedulers / removers, re-entrant callbacks, ghost marks,
+    probes): `tlc -simulate` walks random behaviours of that instance and evaluates every invariant and action
+    property in every state.  Nothing is replayed: interactions between families that no exhaustive instance
+    combines are looked for in the design itself; recorded executions (pipeline B) cover the code at that scale."""
+    C = comps({'c1': ('A', {'on_add', 'on_remove'}), 'c2': ('B', {'on_add'}), 'c3': ('D', {'on_remove'}), 'c4': ('X', set()),
+               'c5': ('B', {'on_add', 'on_remove'})})
+    P = procs({'p1': ('P', {'on_add', 'on_remove'}), 'p2': ('Q', set()), 'p3': ('R', {'on_add'})},
+              {'P': (set(), 0), 'Q': ({'P'}, 1), 'R': (set(), 0)})
+    K = base(Ids={1, 2, 3}, MaxAuto=3, Prios={0, 1, 2}, Dts={1}, MaxQ=4,
+             Acts={'create', 'create2', 'add', 'remove', 'delete', 'process', 'clear', 'toggle', 'probe', 'proc', 'fault', 'ghost',
+                   'inframe', 'probekill', 'reentrant'}, **C, **P)
+    seed = res.seed
+    res.seed = seed + salt
+    try:
+        res.simulate_py('World', 'sim_big', K, num_per_worker, depth, spec='Spec', invariants=INVARIANTS, properties=PROPERTIES,
+                        parse=False, workers=16, timeout=900)
+    finally:
+        res.seed = seed
